@@ -8,5 +8,17 @@ func genRetention() *leanFile {
 	l.cmp("ageOnCmp", deleteGo, "deleteCleaner.Clean", "c.Retention.Age ? 0", 0, "gt")
 	l.cmp("msgsOnCmp", deleteGo, "deleteCleaner.Clean", "c.Retention.Messages ? 0", 0, "gt")
 	l.cmp("bytesOnCmp", deleteGo, "deleteCleaner.Clean", "c.Retention.Bytes ? 0", 0, "gt")
+	// is the age limit applied a second time, after the byte limit?
+	age := callPositions(deleteGo, "deleteCleaner.Clean", "c.applyAgeLimit")
+	byt := callPositions(deleteGo, "deleteCleaner.Clean", "c.applyBytesLimit")
+	msg := callPositions(deleteGo, "deleteCleaner.Clean", "c.applyMessagesLimit")
+	second := "false"
+	if len(age) == 2 && len(byt) == 1 && len(msg) == 1 && age[0] < msg[0] && msg[0] < byt[0] && byt[0] < age[1] {
+		second = "true"
+	} else if !(len(age) == 1 && len(byt) == 1 && len(msg) == 1 && age[0] < msg[0] && msg[0] < byt[0]) {
+		lost = append(lost, deleteGo+":deleteCleaner.Clean stage order (age, messages, bytes[, age])")
+	}
+	facts["Retention.ageSecondPass"] = second
+	l.def("ageSecondPass", "Bool", second, "Clean applies: age, messages, bytes, then age again")
 	return l
 }
